@@ -1,5 +1,6 @@
 import TxV.Drv.Common
 import TxV.Model.Config
+import TxV.Model.Attach
 /-
 Driver for the configuration model (C10, C11).
   reset <types, one letter per option: L P C B A I F S> <defaults n:hex.hex;…|->
@@ -43,8 +44,40 @@ def decOp : List String → Option ListOp
   | ["setitem", i, x] => do pure (.setitem (← i.toNat?) (← Hex.decodeText x))
   | _ => none
 
+/-! the attach phase (`TxV.Attach`): `attach <guard> <name:port,…> <name=v.v;…> <name=v.v;…> <slot:name=v.v|…>` → the final view -/
+
+def decVals (t : String) : Option (List Nat) := if t = "" || t = "-" then some [] else (t.splitOn ".").mapM (·.toNat?)
+
+def decAssoc (t : String) : Option (List (Nat × List Nat)) :=
+  if t = "-" then some [] else
+  (t.splitOn ";").mapM fun kv => match kv.splitOn "=" with
+    | [k, v] => do pure (← k.toNat?, ← decVals v)
+    | _ => none
+
+def lookupVals (l : List (Nat × List Nat)) (n : Nat) : List Nat := ((l.find? (·.1 = n)).map (·.2)).getD []
+
+def attachLine (guard opts store fb evs : String) : String :=
+  let os := (opts.splitOn ",").mapM fun t => match t.splitOn ":" with
+    | [n, p] => n.toNat?.map fun n => ({ name := n, port := p = "p" } : TxV.Attach.Opt)
+    | _ => none
+  let es : Option (List (Nat × (Nat × List Nat))) := if evs = "-" then some [] else
+    (evs.splitOn "|").mapM fun t => match t.splitOn ":" with
+      | [k, kv] => match kv.splitOn "=" with
+        | [n, v] => do pure (← k.toNat?, (← n.toNat?, ← decVals v))
+        | _ => none
+      | _ => none
+  match os, decAssoc store, decAssoc fb, es with
+  | some os, some st, some fbl, some es =>
+    let r := TxV.Attach.attach (guard = "1") (lookupVals fbl) (fun k => (es.filter (·.1 = k)).map (·.2))
+      { store := lookupVals st, view := fun _ => none } os
+    ";".intercalate (os.map fun o => toString o.name ++ "=" ++ (match r.view o.name with
+      | some vs => (if vs.isEmpty then "-" else ".".intercalate (vs.map toString))
+      | none => "~"))
+  | _, _, _, _ => "bad-op"
+
 def step (s : St) (line : String) : St × String :=
   match words line with
+  | ["attach", g, opts, store, fb, evs] => (s, attachLine g opts store fb evs)
   | ["reset", types, defaults] =>
     match types.toList.mapM decTy, decChanges defaults with
     | some ts, some ds => ({ types := ts.zipIdx.map fun (t, i) => (i, t), defaults := ds }, "ok")
